@@ -46,6 +46,18 @@ CHECKS = [
   "all sorted boundary lists of length 2-3 over {-1,0,0.5,1,2} × all observation sequences of length <=2 (thorough 3) over boundaries, their float neighbours, -5, 1e300, ±Inf, NaN, through a compiled histogram program, the VM and the Prometheus exposition",
   "boundary lists longer than 3 and other boundary values are not enumerated",
   "exhaustive small-scope enumeration of declarations and observation sequences on the real compiler/VM/exporter", "§3 C21"),
+ ("C12", "gosim", "fault_enumeration",
+  "for each of 7 exporter entry points (Collect, HandleVarz, HandleGraphite, HandleJSON, writeSocketMetrics x {graphite, statsd, collectd}) on a store of 4 metrics x 3 label sets: every unrepresentable position (metric x {invalid name, key prog, invalid key, empty key}, metric x label set x non-UTF-8 value), a write failure at every k-th write of the fault-free run, cancellation before the request and at every k-th write (thorough: defect x write-failure pairs), each under all schedules with <=1 (thorough 2) deviations of the instrumented metrics/datum/exporter packages; afterwards TryLock succeeds on every metric and both store locks, no controlled thread is left blocked, VM-style GetDatum on every metric and a fault-free export of every format complete",
+  "Exporter.Write/Gather and PushMetrics (library goroutines, real sockets) are not driven; Collect and writeSocketMetrics, which they call, are; HTTP handlers are called directly with a scripted ResponseWriter",
+  "exhaustive fault-point enumeration under a controlled scheduler (exact end-state oracle: all locks free, no thread parked)", "§3 C12"),
+ ("C13", "seqx", "exploration",
+  "all single-metric stores over 7 kind/type shapes x names {foo, foo-bar, 9bad} x key lists {[], [a], [a,b], [a-b], [prog], [le]} x all label-set contents of size<=2 over {x, empty, 0xFF} x value rotations (ints, floats incl. +-Inf/NaN/1e300, histogram observation sets), all pairs (thorough: a slice of triples) incl. same-name metrics of two programs, x prog label on/off x timestamps on/off, filtered by the property's precondition; Exporter.Write output parsed with expfmt.TextParser and compared as a set with series computed independently from the store",
+  "store domain is small-scope; expfmt's parser is trusted as the definition of valid exposition text",
+  "exhaustive small-scope enumeration of stores against the exposition-format parser of the standard client library", "§3 C13"),
+ ("C22", "seqx", "exploration",
+  "all single-metric stores over 7 kind/type shapes x key lists {[], [a], [b,a]} x all label-set contents of size<=2 x value rotations (ints, floats incl. non-finite, strings, histogram observation sets) and pairs with a second program's metric, x prefix x hostname; formats varz, graphite (HTTP and push formatter), statsd, collectd, JSON; each output parsed by an independent per-format parser: exactly one well-formed record per (metric, label set) in scope carrying that label set's own value and timestamp",
+  "label values are free of blanks and of the target formats' separators (the property's precondition); kinds outside a format's scope are neither required nor forbidden",
+  "exhaustive small-scope enumeration of stores with independent per-format parsers as oracle", "§3 C22"),
 ]
 
 ENGINES = [
